@@ -174,7 +174,7 @@ def run_config(pid, hname, cfg, tier, seed, opts):
             else:
                 res['inconclusive'].append({'why': 'unknown', 'ob': name})
         # translator validation on the first paths of each configuration
-        if res['validation']['cases'] < hopts.get('validate_paths', 2) and tag == 'ok' and W.got and not opts.get('no_validate') and not cfg.get('_novalidate'):
+        if res['validation']['cases'] < hopts.get('validate_paths', 2) and tag == 'ok' and not opts.get('no_validate') and not cfg.get('_novalidate'):
             sm = W.sample()
             if sm is not None:
                 vals, env = sm
@@ -511,7 +511,7 @@ def main(argv=None):
           f"inconclusive={len(inconc)} wall={wall:.1f}s -> exit {status}")
     if a.verbose:
         for r in results:
-            print(json.dumps({k: r[k] for k in ('harness', 'cfg', 'paths', 'obligations', 'discharged', 'wall_s')}))
+            print(json.dumps({**{k: r[k] for k in ('harness', 'cfg', 'paths', 'obligations', 'discharged', 'wall_s')}, 'validated': r['validation']['cases']}))
     return status
 
 
